@@ -766,6 +766,18 @@ fn finish_check(spec: &CheckSpec, agg: Agg, t0: Instant) -> i32 {
     let mut external_evals = 0u64;
     if let Some((cmd, args)) = &spec.external {
         match Command::new(cmd).args(args).env("RUST_BACKTRACE", "0").output() {
+            Ok(o) if o.status.code() == Some(1) && args.first().map(|a| a.as_str()) == Some("freerun") => {
+                // the free-running observation failed
+                violations += 1;
+                let dir = format!("{root}/replays");
+                let _ = std::fs::create_dir_all(&dir);
+                let path = format!("{dir}/{}-freerun.json", spec.property);
+                let text = String::from_utf8_lossy(&o.stdout).to_string();
+                std::fs::write(&path, serde_json::to_string_pretty(&serde_json::json!({"freerun": true, "args": args, "observed": text})).unwrap()).unwrap();
+                println!("VIOLATION property={} replay={}", spec.property, path);
+                println!("  background collector: spans finished without flush() were not delivered in time, or the reporter is not invoked every interval: {text}");
+                external_json = serde_json::from_str(&text).unwrap_or(serde_json::Value::Null);
+            }
             Ok(o) if o.status.success() => match serde_json::from_slice::<serde_json::Value>(&o.stdout) {
                 Ok(v) => {
                     external_evals = v["sequences"].as_u64().unwrap_or(0);
@@ -855,8 +867,8 @@ fn finish_check(spec: &CheckSpec, agg: Agg, t0: Instant) -> i32 {
 /// Re-executes a replay file twice; exit code 1 when the finding shows up both times.
 pub fn replay_main(path: &str) -> i32 {
     let rp: Replay = serde_json::from_str(&std::fs::read_to_string(path).expect("replay file")).expect("replay json");
-    init_process_mode(rp.cancelable, rp.no_reporter);
     if let Some(probe) = &rp.probe {
+        init_process_mode(rp.cancelable, rp.no_reporter);
         let fs = match probe.as_str() {
             "late-reporter" => late_reporter_probe(),
             _ => vec![],
@@ -872,6 +884,7 @@ pub fn replay_main(path: &str) -> i32 {
             0
         };
     }
+    init_process_mode(rp.cancelable, rp.no_reporter);
     let rules: Vec<Rule> = rp.rules.iter().map(|s| rule_of(s)).collect();
     let mut hits = 0;
     for round in 0..2 {
